@@ -32,11 +32,15 @@ package client
 
 //@ func (*timeRange).in
 //@   props C14
+//@   local tr *client.timeRange#1
+//@   local t time.Time#1
 //@   requires tr != nil
 //@   ensures [C14] result <==> trIn(*tr, t)
 
 //@ func (*timeRanges).in
 //@   props C14
+//@   local trs *client.timeRanges#1
+//@   local t time.Time#1
 //@   requires trs != nil
 //@   ensures [C14] result <==> (exists j int :: 0 <= j && j < len(*trs) && trIn((*trs)[j], t))
 //@   ensures [C14] set-view: result <==> (exists x timeRange :: memberOf(*trs, x) && trIn(x, t))
@@ -57,6 +61,11 @@ package client
 // multiplicity are irrelevant to timeRanges.in).
 //@ func (*timeRanges).filterWeekdays
 //@   props C14
+//@   local trs *client.timeRanges#1
+//@   local weekdays []time.Weekday#1
+//@   local trsNew client.timeRanges#1
+//@   local tr client.timeRange#1
+//@   local wdFound bool#1
 //@   requires trs != nil && allUTC(*trs)
 //@   modifies trs
 //@   ensures [C14] forall j int :: 0 <= j && j < len(*trs) ==> (exists i int :: 0 <= i && i < old(len(*trs)) && (*trs)[j] == old((*trs)[i]) && wdIn(weekdays, startDay((*trs)[j])))
@@ -76,6 +85,11 @@ package client
 
 //@ func (*timeRanges).filterDates
 //@   props C14
+//@   local trs *client.timeRanges#1
+//@   local dates []string#1
+//@   local trsNew client.timeRanges#1
+//@   local tr client.timeRange#1
+//@   local err error#1
 //@   requires trs != nil && allUTC(*trs)
 //@   modifies trs
 //@   ensures [C14] err == nil ==> (forall j int :: 0 <= j && j < len(*trs) ==> (exists i int :: 0 <= i && i < old(len(*trs)) && (*trs)[j] == old((*trs)[i])))
@@ -120,6 +134,10 @@ package client
 //@ spec func timesValid(s *schedule) bool = hmValid(s.startTime) && hmValid(s.endTime)
 //@ func (*schedule).activeForTime
 //@   props C14
+//@   local s *client.schedule#1
+//@   local t time.Time#1
+//@   local err error#1
+//@   local timeRanges client.timeRanges#1
 //@   requires s != nil
 //@   assert [C14] ranges-built: timesValid(s) ==> (rangesBuilt(s, t, timeRanges)) at "timeRanges.filterWeekdays(s.weekdays)"
 //@   assert [C14] ranges-set: timesValid(s) ==> (builtSet(s, t, timeRanges) && allUTC(timeRanges)) at "timeRanges.filterWeekdays(s.weekdays)"
@@ -139,15 +157,19 @@ package client
 // ---- msg.go: subject parsers (C12: never crash on any subject / payload) ------------------
 //@ func DecodeNodePointsMsg
 //@   props C12
+//@   local msg *nats.Msg#1
 //@   requires msg != nil
 //@ func DecodeEdgePointsMsg
 //@   props C12
+//@   local msg *nats.Msg#1
 //@   requires msg != nil
 //@ func DecodeUpNodePointsMsg
 //@   props C12
+//@   local msg *nats.Msg#1
 //@   requires msg != nil
 //@ func DecodeUpEdgePointsMsg
 //@   props C12
+//@   local msg *nats.Msg#1
 //@   requires msg != nil
 
 // ---- serial-wrapper.go (C17) ------------------------------------------------------------
@@ -160,6 +182,7 @@ package client
 
 //@ func SerialDecode
 //@   props C17
+//@   local d []byte#1
 //@   ensures [C17] res3 == nil ==> len(d) >= 17 && res0 == d[0] && res1 == subjectOf(d[1:17])
 //@   ensures [C17] crc-checked: res3 == nil && res1 != "log" ==> crcTail(d) && sameSlice(res2, d[17:len(d)-2])
 //@   ensures [C17] res3 == nil && res1 == "log" ==> sameSlice(res2, d[17:])
@@ -170,6 +193,11 @@ package client
 
 //@ func SerialEncode
 //@   props C17
+//@   local seq byte#1
+//@   local subject string#1
+//@   local points data.Points#1
+//@   local ret bytes.Buffer#1
+//@   local pbPoints []*pb.SerialPoint#1
 //@   fresh res0
 //@   ensures [C17] len(subject) > 16 ==> res1 != nil
 //@   ensures [C17] res1 == nil ==> len(subject) <= 16 && len(res0) >= 17 && res0[0] == seq
@@ -188,6 +216,9 @@ package client
 //@ spec func subj(d []byte) []byte = d[1:17]
 //@ func verifSerialRoundTrip
 //@   props C17
+//@   local seq byte#1
+//@   local subject string#1
+//@   local d []byte#1
 //@   assert [C17] rt-layout: len(subject) <= 16 && len(d) >= 17 && (forall k int :: 0 <= k && k < 16 ==> subj(d)[k] == ite(k < len(subject), subject[k], 0)) at "SerialDecode(d)"
 //@   assert [C17] rt-first-byte: nulFree(subject) && len(subject) > 0 ==> subj(d)[0] != 0 && subj(d)[len(subject)-1] != 0 at "SerialDecode(d)"
 //@   assert [C17] rt-trim-nonempty: nulFree(subject) && len(subject) > 0 ==> trimLo(subj(d)) < trimHi(subj(d)) at "SerialDecode(d)"
@@ -224,6 +255,10 @@ package client
 
 //@ func cobsDecodeInplace
 //@   props C16
+//@   local b []byte#1
+//@   local foundStart bool#1
+//@   local iIn int#1
+//@   local iOut int#2
 //@   modifies b
 //@   ensures [C16] 0 <= res0 && res0 <= len(b)
 //@   loop 1:
@@ -237,6 +272,13 @@ package client
 
 //@ func (*CobsWrapper).Read
 //@   props C16
+//@   local cw *client.CobsWrapper#1
+//@   local b []byte#1
+//@   local cur int#1
+//@   local foundStart bool#1
+//@   local lb []byte#2
+//@   local i int#2
+//@   local c int#3
 //@   requires cw != nil && len(b) == cw.maxMessageLength && len(b) >= 3 && bufOK(&cw.readLeftover) && len(left(cw)) <= len(b) && refOf(b) != refOf(cw.readLeftover.buf)
 //@   modifies cw, cw.dev, b, cw.readLeftover.buf
 //@   realloc cw.readLeftover.buf
@@ -268,6 +310,10 @@ package client
 
 //@ func cobsEncode
 //@   props C16
+//@   local p []byte#1
+//@   local ret []byte#2
+//@   local codeIdx int#1
+//@   local code byte#1
 //@   fresh
 //@   ensures [C16] len(result) >= 2 && result[len(result)-1] == 0
 //@   loop 1:
@@ -283,6 +329,8 @@ package client
 
 //@ func (*CobsWrapper).Write
 //@   props C16
+//@   local cw *client.CobsWrapper#1
+//@   local w []byte#2
 //@   requires cw != nil
 //@   modifies cw.dev
 //@   assert [C16] frame-delimited: len(w) >= 3 && w[0] == 0 && w[len(w)-1] == 0 at "cw.dev.Write(w)"
